@@ -134,6 +134,7 @@ def units(rng, n):
 def run(rep, tier, seed):
     rng = random.Random(seed * 1000003 + 15)
     quick = tier == "quick"
+    mg_held = GM.ModelGen(rng, 2, 3, 4)
     pool = units(rng, 800 if quick else 4000)
     solo_cases = [Case("u%d" % i, steps, timeout=60) for i, (_, steps) in enumerate(pool)]
     solo = run_cases(solo_cases)
@@ -146,6 +147,18 @@ def run(rep, tier, seed):
             continue
         ok_units.append(i)
     n_seq = 3000 if quick else 30000
+    # documents that stay alive while other documents are built: a query call on an older document is a call like any
+    # other and must give what it gives when it directly follows the building of its document in a fresh process
+    held = []
+    for k in range(12 if quick else 60):
+        m = mg_held.model()
+        big = rng.random() < 0.5
+        xml = GM.render_xml(m, rng) if not big else GM.render_xml(GM.ModelGen(rng, 6, 10, 20).model(), rng)
+        qs = ["E<> g0 >= 0", "A[] not deadlock", "E<> g0 > 100 || N == 0", "A[] g0 + ", "E<> nosuch > 1"][:rng.randint(2, 5)]
+        hc = Case("h%d" % k, [Step("parse_doc", 2, "xml_buffer", 1, 0, xml), Step("query", 2, "", *qs)], timeout=60)
+        held.append((xml, qs, hc))
+    hres = run_cases([hc for _, _, hc in held])
+    held = [(x, q, hc, strip(hres[hc.id]["steps"][1])) for x, q, hc in held if hres[hc.id]["status"] == "ok"]
     seqs = []
     for k in range(n_seq):
         length = rng.randint(2, 8)
@@ -157,15 +170,22 @@ def run(rep, tier, seed):
             seeded = rng.choice([2 ** 31 - rng.randint(1, 4000), 2 ** 32 - rng.randint(1, 4000), 2 ** 31 - 1, 2 ** 31, 2 ** 32 - 2,
                                  2 ** 31 - rng.randint(1, 60), 2 ** 32 - rng.randint(1, 60)])
             steps.append(Step("tracker", seeded))
+        hold = rng.choice(held) if held and seeded is None and rng.random() < 0.3 else None
+        if hold:
+            steps.append(Step("parse_doc", 2, "xml_buffer", 1, 0, hold[0]))
         for i in idx:
             steps.append(Step("drop", 0))
             start = len(steps)
             steps += pool[i][1]
             bounds.append((i, start, len(steps)))
-        seqs.append((idx, bounds, seeded, Case("q%d" % k, steps, timeout=120)))
-    sres = run_cases([c for _, _, _, c in seqs])
+        hq = None
+        if hold:
+            hq = len(steps)
+            steps.append(Step("query", 2, "", *hold[1]))
+        seqs.append((idx, bounds, seeded, Case("q%d" % k, steps, timeout=120), hold, hq))
+    sres = run_cases([c for _, _, _, c, _, _ in seqs])
     compared = 0
-    for idx, bounds, seeded, c in seqs:
+    for idx, bounds, seeded, c, hold, hq in seqs:
         r = sres[c.id]
         if r["status"] != "ok":
             if r["status"] == "timeout":
@@ -175,7 +195,16 @@ def run(rep, tier, seed):
                 key = rep.crash(r, c)
             rep.observe(None)
             continue
-        rep.observe((tuple(pool[i][0] for i in idx), seeded is not None))
+        rep.observe((tuple(pool[i][0] for i in idx), seeded is not None, hold is not None))
+        if hold is not None:
+            got = strip(r["steps"][hq])
+            compared += 1
+            if got != hold[3]:
+                from .. import deepdiff
+                d = deepdiff.first_diff(hold[3], got)
+                rep.violation("C15:query-on-older-document-depends-on-history:%s" % (d[0].replace("/[]", "") if d else "?"),
+                              "queries on a document built %d calls earlier: %s is %r when the queries directly follow the building of the "
+                              "document in a fresh process but %r here" % (len(idx), d[0] if d else "?", d[1] if d else None, d[2] if d else None), c)
         for pos, (i, a, b) in enumerate(bounds):
             want = strip(solo[solo_cases[i].id]["steps"])
             got = strip(r["steps"][a:b])
@@ -198,6 +227,7 @@ def run(rep, tier, seed):
                                   d[1] if d else None, d[2] if d else None), c)
                 break
     rep.sample({"sequence": [pool[i][0] for i in seqs[0][0]], "seeded_counter": seqs[0][2]})
+    rep.extra["sequences_with_a_held_document"] = sum(1 for x in seqs if x[4] is not None)
     rep.rule = ("units (valid / faulty XML and XTA parses through buffer, file, fd and FILE*, parses ending in "
                 "NotSupportedException / XMLDocError / XMLReaderError, unterminated comments and strings, blank and "
                 "broken block parses, query parses, old-syntax documents, chained first transitions, pretty printing) "
